@@ -420,7 +420,7 @@ impl Prop for CliFaithful {
     }
 
     fn rule(&self) -> String {
-        "one run = one process of `simcli` (the repository's real main() inside one simulated execution: rayon stand-in, seeded scheduler, keyed sampling, core-count override) on one generated valid game written by the harness's own JSON-DSL / Gambit writer (constant sums != 0, interior payoffs, shared outcomes, unnamed infosets, rational and decimal probabilities, shuffled action lists, names at first occurrence only, constant-sum error inside the tolerance) x route (file / stdin, extension, --input-format, -o) x -m x -d x -t x -r x -p in {absent,0,1,2,3,4,8} x -c in {absent,0,1e-3,0.05,0.3,0.6,1}. Oracle: exit 0, exactly one result object, valid profiles over exactly the file's infosets, and every printed number equals an independent evaluation of the PRINTED strategies on the game as written (own payoffs, constant sum). Every run is non-trivial; distinct = distinct case hashes".into()
+        "one run = one process of `simcli` (the repository's real main() inside one simulated execution: rayon stand-in, seeded scheduler, keyed sampling, core-count override) on one generated valid game written by the harness's own JSON-DSL / Gambit writer (constant sums != 0, interior payoffs incl. non-zero-sum ones, outcomes shared and referred to by number only before / after their definition, unnamed infosets, names at first occurrence only, chance infosets numbered from 0, rational and decimal probabilities, shuffled action lists, constant-sum error inside the tolerance, leading whitespace, multi-byte / escaped / numeric-looking names, lotteries: probability 1e-17 with payoffs x 1e17) x route (file / stdin, extension incl. a misleading one under an explicit format, --input-format, -o incl. a pre-existing longer file) x -m x -d x -t x -r x -p in {absent,0,1,2,3,4,8} x -c in {absent,0,1e-3,0.05,0.3,0.6,1}. Oracle: the compact game built by the binary's own reader is structurally the file's game (tree, payoffs, names, probabilities, partition of chance nodes into infosets); exit 0, exactly one result object, valid profiles over exactly the file's infosets, and every printed number equals an independent evaluation of the PRINTED strategies on the game as written (own payoffs, constant sum; tolerance 1e-9 x the game's reach-weighted magnitude). Every run is non-trivial; distinct = distinct case hashes".into()
     }
 
     fn assumptions(&self) -> Vec<String> {
